@@ -1522,6 +1522,49 @@ def rule_roundtrip(ctx) -> RuleResult:
                        "(mean, median, or min/max/sum with a NaN fill) of datetime64 / timedelta64 input comes back as float64 epoch numbers instead of datetimes")
     if n == 0:
         raise AnalysisError("groupby_reduce: no cast of the result back to a saved input dtype found (anchor)")
+    # value clause: the restore applies only to results that ARE values of the input's type.  Blueprints whose final dtype is the platform
+    # integer (counts, arg reductions: positions) must be excluded by the guard -- evaluated over the finite alphabet of blueprint names.
+    int_results = sorted({rec.name for _k, rec in ctx.registry.agg_items() if not rec.errors and str(rec.args.get("final_dtype")) in ("np.intp", "Sym('np.intp')", str(T.INTP))})
+    helpers = {}
+    for q, h in ctx.prog.funcs.items():
+        if q.startswith("core._is_") and len(h.params) == 1:
+            names = set()
+            for c in walk_own(h.node):
+                if isinstance(c, ast.Compare) and len(c.ops) == 1 and isinstance(c.ops[0], ast.In) and isinstance(c.comparators[0], (ast.List, ast.Tuple, ast.Set)) \
+                        and norm(c.left) == h.params[0]:
+                    names |= {e.value for e in c.comparators[0].elts if isinstance(e, ast.Constant)}
+            helpers[q.split(".")[-1]] = names
+    fvar = "func"
+
+    def excluded(name: str, facts) -> str | None:
+        for at, pol in facts:
+            e = ast.parse(at, mode="eval").body
+            val = None
+            if isinstance(e, ast.Compare) and len(e.ops) == 1 and norm(e.left) == fvar:
+                r = e.comparators[0]
+                if isinstance(e.ops[0], ast.Eq) and isinstance(r, ast.Constant):
+                    val = name == r.value
+                elif isinstance(e.ops[0], ast.In) and isinstance(r, (ast.List, ast.Tuple, ast.Set)):
+                    val = name in {x.value for x in r.elts if isinstance(x, ast.Constant)}
+            elif isinstance(e, ast.Call) and isinstance(e.func, ast.Name) and e.func.id in helpers and len(e.args) == 1 and norm(e.args[0]) == fvar:
+                val = name in helpers[e.func.id]
+            if val is not None and val != pol:
+                return at
+        return None
+
+    for a in walk_own(f.node):
+        if not (isinstance(a, ast.Assign) and len(a.targets) == 1 and norm(a.targets[0]) == res_name and isinstance(a.value, ast.Call)
+                and isinstance(a.value.func, ast.Attribute) and a.value.func.attr in ("astype", "view") and a.value.args
+                and isinstance(a.value.args[0], ast.Name) and a.value.args[0].id in saved):
+            continue
+        facts = guard_facts(a, pm)
+        for name in int_results:
+            by = excluded(name, facts)
+            res.inst(f"groupby_reduce: '{norm(a)[:40]}' for func={name!r} (integer result): excluded by {by!r}", f"value|{a.lineno}|{name}")
+            if by is None:
+                res.report(f"core.groupby_reduce|restore-applied-to-integer-result|{name}", f.where(a), f.qualname,
+                           f"'{norm(a)[:50]}' is also reached for func={name!r}, whose result is a platform integer (a position / a count), not a value of the input: "
+                           f"the {name} of datetime64 / timedelta64 data comes back as datetimes near the epoch instead of integers")
     return res
 
 
